@@ -26,6 +26,9 @@ Proof.
   rewrite Hl. destruct (Qle_bool 0 b); rewrite H; reflexivity.
 Qed.
 
+Lemma q_nat_proper : forall a b, (a == b)%Q -> q_nat a = q_nat b.
+Proof. intros a b H. unfold q_nat. rewrite (Qred_complete _ _ H). reflexivity. Qed.
+
 Definition zero_sv (s : sv) : Prop := (fst s == 0)%Q /\ (snd s == 0)%Q.
 
 Lemma rzero_sym : forall p s, rzero p = true -> sv_eq (sym p) s -> zero_sv s.
@@ -207,7 +210,7 @@ Section Sound.
     exists s, sval e = Some s /\ sv_eq (sym p) s.
   Proof.
     intros old.
-    induction e as [q| |e IH|e IH|a IHa b IHb|a IHa b IHb|a IHa b IHb|a IHa b IHb|e IH n|e IH|e IH|e IH];
+    induction e as [q| |e IH|e IH|a IHa b IHb|a IHa b IHb|a IHa b IHb|a IHa b IHb|e IH n|a IHa b IHb|e IH|e IH|e IH];
       intros p Hk H; cbn [rfeval_gen sval known_C03_intfn_of_pi] in *.
     - injection H as <-. eexists. split; [reflexivity|]. split; reflexivity.
     - injection H as <-. eexists. split; [reflexivity|]. split; reflexivity.
@@ -265,6 +268,17 @@ Section Sound.
       destruct fe, (snd r) eqn:Hr; cbn [andb] in Hf; try discriminate.
       destruct (IH pe Hk eq_refl) as (se & -> & He). cbn [obind]. subst p.
       apply (good_pow pe n r se); auto.
+    - assert (Ka : old = true -> known_C03_intfn_of_pi piq a = false) by (intros Ho; specialize (Hk Ho); apply Bool.orb_false_iff in Hk; tauto).
+      assert (Kb : old = true -> known_C03_intfn_of_pi piq b = false) by (intros Ho; specialize (Hk Ho); apply Bool.orb_false_iff in Hk; tauto).
+      destruct (rfeval_gen piq old a) as [[pa fa]| |] eqn:Ea; cbn [bind] in H; try discriminate.
+      destruct (rfeval_gen piq old b) as [[pb fb]| |] eqn:Eb; cbn [bind] in H; try discriminate.
+      cbn [fst snd] in H. destruct pb as [q|q]; try discriminate.
+      destruct (q_nat q) as [n|] eqn:Eq; try discriminate.
+      destruct (real_pow piq pa n) as [r| |] eqn:Er; cbn [bind] in H; try discriminate.
+      injection H as Hp Hf. destruct fa, fb, (snd r) eqn:Hr; cbn [andb] in Hf; try discriminate.
+      destruct (IHa pa Ka eq_refl) as (sa & -> & Ha). destruct (IHb (RSimple q) Kb eq_refl) as (sb & -> & [Hb1 Hb2]).
+      cbn [obind sym fst snd] in *. rewrite (qzero_true (snd sb)) by (rewrite <- Hb2; reflexivity).
+      rewrite <- (q_nat_proper _ _ Hb1), Eq. subst p. apply (good_pow pa n r sa); auto.
     - destruct (rfeval_gen piq old e) as [[pe fe]| |] eqn:Ee; cbn [bind] in H; try discriminate.
       unfold v_intfn in H. injection H as <- Hf. cbn [fst snd] in *.
       apply Bool.andb_true_iff in Hf as [-> Hx].
@@ -313,14 +327,14 @@ Section Sound.
     | RLit _ | RPiC => false
     | RApx _ => true
     | RNeg e | RPow e _ | RFloor e | RCeil e | RRound e => r_uses_approx e
-    | RAdd a b | RSub a b | RMul a b | RDiv a b => r_uses_approx a || r_uses_approx b
+    | RAdd a b | RSub a b | RMul a b | RDiv a b | RPowE a b => r_uses_approx a || r_uses_approx b
     end.
 
   Theorem real_flag_monotone_lemma : forall old e p fl,
     r_uses_approx e = true -> rfeval_gen piq old e = Ok (p, fl) -> fl = false.
   Proof.
     intros old.
-    induction e as [q| |e IH|e IH|a IHa b IHb|a IHa b IHb|a IHa b IHb|a IHa b IHb|e IH n|e IH|e IH|e IH];
+    induction e as [q| |e IH|e IH|a IHa b IHb|a IHa b IHb|a IHa b IHb|a IHa b IHb|e IH n|a IHa b IHb|e IH|e IH|e IH];
       intros p fl Hu H; cbn [rfeval_gen r_uses_approx] in *; try discriminate.
     - destruct (rfeval_gen piq old e) as [[v f]| |]; cbn [bind] in H; try discriminate. injection H as _ <-. reflexivity.
     - destruct (rfeval_gen piq old e) as [[v f]| |] eqn:E; cbn [bind] in H; try discriminate. injection H as _ <-.
@@ -353,6 +367,14 @@ Section Sound.
     - destruct (rfeval_gen piq old e) as [[pe fe]| |] eqn:Ee; cbn [bind] in H; try discriminate.
       destruct (real_pow piq (fst (pe, fe)) n) as [r| |]; cbn [bind] in H; try discriminate.
       injection H as _ <-. cbn [snd]. rewrite (IH _ _ Hu eq_refl). reflexivity.
+    - destruct (rfeval_gen piq old a) as [[pa fa]| |] eqn:Ea; cbn [bind] in H; try discriminate.
+      destruct (rfeval_gen piq old b) as [[pb fb]| |] eqn:Eb; cbn [bind] in H; try discriminate.
+      cbn [fst snd] in H. destruct pb as [q|q]; try discriminate.
+      destruct (q_nat q); try discriminate.
+      destruct (real_pow piq pa n) as [r| |]; cbn [bind] in H; try discriminate.
+      injection H as _ <-.
+      apply Bool.orb_true_iff in Hu as [Hu|Hu]; [rewrite (IHa _ _ Hu eq_refl)|rewrite (IHb _ _ Hu eq_refl)];
+        destruct (snd r); try destruct fa; try destruct fb; reflexivity.
     - destruct (rfeval_gen piq old e) as [[pe fe]| |] eqn:Ee; cbn [bind] in H; try discriminate.
       injection H as _ <-. cbn [snd]. rewrite (IH _ _ Hu eq_refl). reflexivity.
     - destruct (rfeval_gen piq old e) as [[pe fe]| |] eqn:Ee; cbn [bind] in H; try discriminate.
